@@ -197,11 +197,11 @@ def run(chk):
     _simulate(chk, 'C15_sim.cfg', env, spaces, pmap, stats, num=200, depth=22)
   else:
     _check_and_cover(chk, 'C15_thorough.cfg', env, spaces, pmap, stats, limit=0, timeout=3000)
-    _check_and_cover(chk, 'C15_ooo_thorough.cfg', env, spaces, pmap, stats, limit=12000, timeout=3000)
+    _check_and_cover(chk, 'C15_ooo_thorough.cfg', env, spaces, pmap, stats, limit=8000, timeout=3000)
     _mirror(chk, env, spaces, pmap, stats)
-    _simulate(chk, 'C15_sim_thorough.cfg', env, spaces, pmap, stats, num=4000, depth=30, workers=8)
+    _simulate(chk, 'C15_sim_thorough.cfg', env, spaces, pmap, stats, num=3000, depth=30, workers=8)
     spaces4, pmap4, env4 = _streams(chk, 4, 16, 9, 'd4')
-    _simulate(chk, 'C15_sim4.cfg', env4, spaces4, pmap4, stats, num=3000, depth=24, workers=8)
+    _simulate(chk, 'C15_sim4.cfg', env4, spaces4, pmap4, stats, num=2000, depth=24, workers=8)
   chk.notes['replay_stats'] = dict(sorted(stats.items()))
   # vacuity guards: every mechanism the property talks about was exercised on the real code
   for c in search.FAMILY:
